@@ -30,6 +30,7 @@ def run_ops(root, lines, env_extra=None):
     opsf = root + ".ops"
     open(opsf, "w").write("\n".join(lines) + "\n")
     env = dict(ENV)
+    env.setdefault("VERIF_WATCHDOG_SECS", "10")      # a call that never returns ends the process with exit code 4
     if env_extra:
         env.update(env_extra)
     try:
